@@ -520,7 +520,16 @@ func sizeCase(res *ShardResult, add func(string, string, map[string]interface{})
 		_ = target
 		return "stored"
 	}
-	// refused: the log must be unchanged
+	// refused: only entries beyond the documented maximum may be refused, and the log must be unchanged
+	tooBig := false
+	for _, lg := range want {
+		if core.EncodedSize(lg) > 64<<20 {
+			tooBig = true
+		}
+	}
+	if !tooBig {
+		add("refused-valid", fmt.Sprintf("StoreLogs refused a batch whose largest entry (payload %d bytes, position %s, segment %d) is within the documented 64 MiB maximum: %v", sz, pos, seg, err), desc)
+	}
 	l, _ := sys.W.LastIndex()
 	if l != 0 {
 		add("refused-changed", fmt.Sprintf("StoreLogs refused a %d-byte payload (%v) but LastIndex is %d", sz, err, l), desc)
